@@ -40,9 +40,9 @@ inductive Kind
   | rawThin    -- `*const c_void` from `ThinArc::into_raw`
 deriving DecidableEq, Repr, Inhabited
 
-/-- layout of `Tracked` (8,4) and `TrackedB` (16,8) -/
+/-- layout of `Tracked` (8,4) and the over-aligned `TrackedB` (16,16) -/
 def trackedLay : Layout := ⟨8, 4⟩
-def trackedBLay : Layout := ⟨16, 8⟩
+def trackedBLay : Layout := ⟨16, 16⟩
 
 def Ty.elemLay : Ty → Layout
   | .sizedB => trackedBLay
